@@ -39,5 +39,7 @@ Proof. intro H. unfold Rpow_go. destruct (Rlt_dec 0 x) as [_|N]; [reflexivity | 
 Ltac cert :=
   unfold certR;
   cbv -[Rplus Rminus Rmult Rdiv Ropp Rinv Rabs Rle Rlt exp ln sin cos tan Rpower powerRZ IZR sqrt PI Rpow_go];
-  repeat (rewrite Rpow_go_pos by (interval with (i_prec 60)));
+  repeat match goal with
+         | |- context [Rpow_go ?x ?y] => rewrite (Rpow_go_pos x y) by (interval with (i_prec 60))
+         end;
   interval with (i_prec 80).
